@@ -51,7 +51,8 @@ Print Assumptions C14_assign_range.
 
 (* --- routing ------------------------------------------------------------------------------------ *)
 
-(* Repaired pass (no early exit, records written as they are): every requested output o holds, in
+(* `visible c o`: a path was given for output o and it is not the null device (a file that can be
+   read back).  Repaired pass (no early exit, records written as they are): every such output o holds, in
    input order and unmodified, exactly the reads that are kept (all, or the listed ones with
    --discard-unknown-reads) and whose assigned haplotype selects o (o itself, or -- for untagged
    reads with --add-untagged -- every haplotype output); nothing is observable for the others. *)
@@ -60,7 +61,7 @@ Theorem C14_routing : forall (rs : rules) (c : cfg) (l : hlist) (reads : list re
   run rs c l reads = Done outs hist ->
   (o <= ploidy c)%nat ->
   nth o outs None =
-  if nth o (req c) false
+  if visible c o
   then Some (map rpayload (filter (fun r => (negb (discard c) || known (entries l) (rname r)) &&
                                             goes_to c (assign c (entries l) (rname r)) o) reads))
   else None.
@@ -72,7 +73,7 @@ Theorem C14_routing_default : forall (rs : rules) (c : cfg) (l : hlist) (reads :
   fastq_via_str rs = false ->
   add_untagged c = false -> discard c = false ->
   run rs c l reads = Done outs hist ->
-  (o <= ploidy c)%nat -> nth o (req c) false = true ->
+  (o <= ploidy c)%nat -> visible c o = true ->
   nth o outs None =
   Some (map rpayload (filter (fun r => assign c (entries l) (rname r) =? Z.of_nat o) reads)).
 Proof. exact routing_default. Qed.
@@ -82,7 +83,7 @@ Theorem C14_add_untagged_spec : forall (rs : rules) (c : cfg) (l : hlist) (reads
   early_exit rs = false -> fastq_via_str rs = false ->
   add_untagged c = true -> discard c = false ->
   run rs c l reads = Done outs hist ->
-  (1 <= o <= ploidy c)%nat -> nth o (req c) false = true ->
+  (1 <= o <= ploidy c)%nat -> visible c o = true ->
   nth o outs None =
   Some (map rpayload (filter (fun r => (assign c (entries l) (rname r) =? Z.of_nat o) ||
                                        (assign c (entries l) (rname r) =? 0)) reads)).
@@ -93,7 +94,7 @@ Theorem C14_discard_spec : forall (rs : rules) (c : cfg) (l : hlist) (reads : li
   early_exit rs = false -> fastq_via_str rs = false ->
   discard c = true ->
   run rs c l reads = Done outs hist ->
-  (o <= ploidy c)%nat -> nth o (req c) false = true ->
+  (o <= ploidy c)%nat -> visible c o = true ->
   nth o outs None =
   Some (map rpayload (filter (fun r => known (entries l) (rname r) &&
                                        goes_to c (assign c (entries l) (rname r)) o) reads)).
@@ -132,7 +133,7 @@ Print Assumptions C14_list_duplicate_names_refuted.
    (pysam prints a record with empty quality string as FASTA) *)
 Theorem C14_unmodified_refuted : forall (c : cfg) (l : hlist) (r : read),
   rlibstr r <> rpayload r -> check_list legacy c l = None ->
-  nth 1 (req c) false = true -> kept c (entries l) r = true -> assign c (entries l) (rname r) = 1 ->
+  visible c 1 = true -> kept c (entries l) r = true -> assign c (entries l) (rname r) = 1 ->
   exists outs hist, run legacy c l [r] = Done outs hist /\ nth 1 outs None = Some [rlibstr r] /\
     exp_out c (entries l) (assign c (entries l)) [r] 1 = [rpayload r].
 Proof. exact str_refutes_unmodified. Qed.
@@ -184,7 +185,19 @@ Theorem C14_histogram_vs_input : forall (rs : rules) (c : cfg) (es : list entry)
 Proof. exact hcount_expected. Qed.
 Print Assumptions C14_histogram_vs_input.
 
-(* Current row rule: a length present in two classes is printed twice, the column sum doubles. *)
+(* A class is counted iff an output path was given for it (process_haplotype); giving the null
+   device as that path changes neither the error behaviour nor any histogram row. *)
+Theorem C14_null_device_same_histogram : forall (rs : rules) (c : cfg) (nl : list bool) (l : hlist) (reads : list read),
+  match run rs (mkCfg (req_untagged c) (req_h c) nl (add_untagged c) (only_largest c) (discard c) (want_hist c)) l reads,
+        run rs c l reads with
+  | Done _ h1, Done _ h2 => h1 = h2
+  | Fail e1, Fail e2 => e1 = e2
+  | _, _ => False
+  end.
+Proof. exact null_device_same_histogram. Qed.
+Print Assumptions C14_null_device_same_histogram.
+
+(* Legacy row rule: a length present in two classes is printed twice, the column sum doubles. *)
 Theorem C14_histogram_counts_refuted :
   valid_input w_cfg3 w_list = true /\
   exists outs rows, run legacy w_cfg3 w_list w_reads3 = Done outs (Some rows) /\
@@ -213,14 +226,22 @@ Theorem C14_spec_check_routing_meaning : forall (c : cfg) (l : hlist) (reads : l
   exists a : Z -> Z,
     (forall n, In (a n) (cands c (entries l) n)) /\
     forall o, (o <= ploidy c)%nat ->
-      nth o outs None = if nth o (req c) false then Some (exp_out c (entries l) a reads o) else None.
+      nth o outs None = if visible c o then Some (exp_out c (entries l) a reads o) else None.
 Proof. exact l1_routing_meaning. Qed.
 Print Assumptions C14_spec_check_routing_meaning.
+
+(* histogram only: every -o is the null device; nothing is observable but every class is counted *)
+Example C14_example_null_device :
+  let c := mkCfg false [true; true] [false; true; true] false false false true in
+  let l := mkList true false [(1, 1, 0, 0); (2, 2, 0, 0)] in
+  let reads := [(1, 4, 101, 101); (2, 4, 102, 102); (3, 5, 103, 103); (2, 7, 104, 104)] in
+  run repaired c l reads = Done [None; None; None] (Some [[4; 0; 1; 1]; [7; 0; 0; 1]]).
+Proof. vm_compute. reflexivity. Qed.
 
 (* --- non-vacuity --------------------------------------------------------------------------------- *)
 (* duplicate names, a read without sequence, a name absent from the list, --add-untagged *)
 Example C14_example_repaired :
-  let c := mkCfg true [true; true; true] true false false true in
+  let c := mkCfg true [true; true; true] [false; false; false; false] true false false true in
   let l := mkList true true [(1, 1, 7, 1); (2, 3, 7, 1); (3, 0, 7, 1); (9, 2, 8, 1)] in
   let reads := [(1, 4, 101, 101); (4, 0, 102, 102); (1, 4, 103, 103); (2, 2, 104, 104); (3, 4, 105, 105)] in
   valid_input c l = true /\
@@ -234,7 +255,7 @@ Proof. vm_compute. repeat split; reflexivity. Qed.
 
 (* partition hypotheses are satisfiable; labels 1,0,1,3,0 *)
 Example C14_example_partition :
-  let c := mkCfg true [true; true; true] false false false false in
+  let c := mkCfg true [true; true; true] [false; false; false; false] false false false false in
   let l := mkList true true [(1, 1, 7, 1); (2, 3, 7, 1); (3, 0, 7, 1); (9, 2, 8, 1)] in
   let reads := [(1, 4, 101, 101); (4, 0, 102, 102); (1, 4, 103, 103); (2, 2, 104, 104); (3, 4, 105, 105)] in
   all_requested c = true /\
@@ -245,7 +266,7 @@ Proof. vm_compute. split; reflexivity. Qed.
    and 5 tie with two lines each and 9, which comes first in the list, is kept (5 < 9: neither the
    smallest nor the last) *)
 Example C14_example_largest_block :
-  let c := mkCfg true [true; true] false true true false in
+  let c := mkCfg true [true; true] [false; false; false] false true true false in
   let es := [(1, 1, 7, 1); (10, 1, 9, 2); (2, 2, 7, 1); (11, 2, 5, 2); (3, 1, 7, 1); (5, 2, 8, 1);
              (12, 1, 5, 2); (6, 0, 0, 1); (13, 2, 9, 2)] in
   first_max es 1 = Some 7 /\ first_max es 2 = Some 9 /\
@@ -269,7 +290,7 @@ Qed.
    NOT the largest of chromosome 2.  The code keeps the name (it is in a largest block) but with the
    haplotype of its last tagged line (H2). *)
 Example C14_example_stale_haplotype_quirk :
-  let c := mkCfg true [true; true] false true false false in
+  let c := mkCfg true [true; true] [false; false; false] false true false false in
   let es := [(1, 1, 7, 1); (2, 1, 7, 1); (1, 2, 9, 2); (3, 1, 8, 2); (4, 1, 8, 2)] in
   best_block es 1 = Some 7 /\ best_block es 2 = Some 8 /\
   assign c es 1 = 2 /\ cands c es 1 = [0; 1; 2].
